@@ -26,7 +26,7 @@ PROPS = {
     },
     "C02": {
         "harness": "c02",
-        "quick": {"workers": 8, "cases": 600, "size": 24},
+        "quick": {"workers": 8, "cases": 500, "size": 24},
         "thorough": {"workers": 16, "cases": 1500, "size": 34},
         "min_nontrivial_frac": 0.25,
         "rule": GEN_TA + "pairs (A,B) with overlapping state numbers (Union, Intersection, IntersectionBU) and offset-disjoint numbers (UnionDisjointStates); "
